@@ -43,7 +43,13 @@ def specLine (env : Impl.Env) (toks : List Token) : String :=
   let outs := (toks.filter (fun t => t.ty = .operand ∧ t.sub = .range)).map (fun t =>
     if env.names.contains t.tv || Impl.containsBracket t.tv then (Spec.Out.same, t.tv)
     else Spec.expectTv env.sheet env.sheetN env.kr env.e t.tv)
-  if outs.any (fun o => o.1 = .deleted) then "S=deleted"
+  if outs.any (fun o => o.1 = .deleted) then
+    -- inside the excluded region: what the code does (Spec.slideRef), when that stays in the grid
+    let sl := (toks.filter (fun t => t.ty = .operand ∧ t.sub = .range)).map (fun t =>
+      if env.names.contains t.tv || Impl.containsBracket t.tv then some t.tv
+      else Spec.expectSlide env.sheet env.sheetN env.kr env.e t.tv)
+    if sl.all Option.isSome then "S=deleted:" ++ String.intercalate "," (sl.map (fun o => hexS (o.getD [])))
+    else "S=deleted"
   else if outs.any (fun o => o.1 = .offGrid) then "S=grid"
   else "S=" ++ String.intercalate "," (outs.map (fun o => hexS o.2))
 
